@@ -24,6 +24,7 @@ from harness import translate_layerb as L
 from harness.translate_layerb import Unsupported, _src
 
 L.LEAN_TYPE.update({
+    "Dict": "List (List Char × Option (List Char))", "DictItem": "List Char × Option (List Char)", "OptPair": "Option (List Char) × List Char",
     "Cls": "String", "ClsOpt": "Option String", "VC": "String", "TRange": "String × List TCon",
     "Str": "List Char", "StrOpt": "Option (List Char)", "StrList": "List (List Char)", "StrPair": "List Char × List Char",
     "Str3": "List Char × List Char × List Char", "TCon": "TCon", "TConList": "List TCon", "Dict2": "List Char × List Char",
@@ -55,8 +56,13 @@ class TextTr(L.Tr):
         if isinstance(node, ast.Tuple) and len(node.elts) == 2:
             a, at, ap = self.expr(node.elts[0], env)
             b, bt, bp = self.expr(node.elts[1], env)
-            if at == bt == "Str" and ap and bp:
+            if at == bt == "Str" and ap and bp and self.fn.ret != "OptPair":
                 return "(%s, %s)" % (a, b), "StrPair", True
+            if at in ("StrOpt", "Str") and bt == "Str" and ap and bp:
+                return "(%s, %s)" % (a if at == "StrOpt" else "some %s" % a, b), "OptPair", True
+        if isinstance(node, ast.Dict) and all(isinstance(k, ast.Constant) and isinstance(v, ast.Constant) and isinstance(k.value, str)
+                                              and isinstance(v.value, str) for k, v in zip(node.keys, node.values)):
+            return "[" + ", ".join("(%s, some %s)" % (lit(k.value), lit(v.value)) for k, v in zip(node.keys, node.values)) + "]", "Dict", True
         if isinstance(node, ast.Attribute) and node.attr == "version_class" and isinstance(node.value, ast.Name) and env.get(node.value.id) == "Cls":
             return "(versionClassOfE %s)" % node.value.id, "VC", False
         if isinstance(node, ast.List) and not node.elts:
@@ -136,6 +142,10 @@ class TextTr(L.Tr):
                 t, ty, p = self.expr(node.args[0], env)
                 if ty == "Str" and p:
                     return "(vc_split %s %s)" % (self.mkarg, t), "StrPair", False
+            if isinstance(f, ast.Attribute) and f.attr == "items" and not node.args:
+                t, ty, p = self.expr(f.value, env)
+                if ty == "Dict" and p:
+                    return t, "Dict", True
             if isinstance(f, ast.Attribute) and f.attr == "get" and isinstance(f.value, ast.Name) and f.value.id == "RANGE_CLASS_BY_SCHEMES" \
                     and len(node.args) == 1:
                 t, ty, p = self.expr(node.args[0], env)
@@ -194,6 +204,10 @@ class TextTr(L.Tr):
                             out = ("(stripWs %s)" % recv, "Str")
                         elif f.attr == "lower" and not args:
                             out = ("(lower %s)" % recv, "Str")
+                        elif f.attr == "endswith" and len(args) == 1:
+                            out = ("(endsWith %s %s)" % (recv, a0), "Bool")
+                        elif f.attr == "rstrip" and len(args) == 1:
+                            out = ("(rstripSet %s %s)" % (a0, recv), "Str")
                         if out is not None:
                             if p:
                                 return out[0], out[1], True
@@ -223,6 +237,8 @@ class TextTr(L.Tr):
             return "(!(%s).isEmpty)" % t, "Bool", True
         if ty == "ClsOpt" and pure:
             return "(%s).isSome" % t, "Bool", True
+        if ty == "StrOpt" and pure:
+            return "(truthyOpt %s)" % t, "Bool", True
         raise Unsupported("truth value of %s" % ty)
 
     def bind_target(self, target, ity, env):
@@ -230,6 +246,10 @@ class TextTr(L.Tr):
         if ity == "StrList" and isinstance(target, ast.Name):
             env2[target.id] = "Str"
             return env2, target.id
+        if ity == "Dict" and isinstance(target, ast.Tuple) and len(target.elts) == 2:
+            env2[target.elts[0].id] = "Str"
+            env2[target.elts[1].id] = "StrOpt"
+            return env2, "(%s, %s)" % (target.elts[0].id, target.elts[1].id)
         raise Unsupported("loop target %s over %s" % (_src(target), ity))
 
 
@@ -305,6 +325,10 @@ JOBS = [
      ["PyTextSplit"]),
     ("version_constraint.py", "__str__", "VersionConstraint", "PyTextConStr", "vc_str", [("self", "TCon")], "Str", []),
     ("version_constraint.py", "to_dict", "VersionConstraint", "PyTextConToDict", "vc_to_dict", [("self", "TCon")], "Dict2", []),
+    ("version_range.py", "split_req", None, "PyTextSplitReq", "py_split_req",
+     [("string", "Str"), ("comparators", "Dict"), ("default", "StrOpt"), ("strip", "Str")], "OptPair", ["PyTextRemoveSpaces"]),
+    ("version_range.py", "split_req_bracket_notation", None, "PyTextSplitReqBracket", "py_split_req_bracket",
+     [("string", "Str")], "OptPair", ["PyTextRemoveSpaces"]),
     ("version_range.py", "from_string", "VersionRange", "PyTextRangeFromString", "vr_from_string",
      [("vers", "Str"), ("simplify", "Bool"), ("validate", "Bool")], "TRange", ["PyTextConFromString"]),
 ]
